@@ -2,17 +2,6 @@ import BqVerif.Proofs.ServerBubble
 /-! C13: what is really written to the clients (the outgoing thread skips closed connections). -/
 namespace BqVerif.Server
 
-theorem keepWritten_noClose {rs : List Reply} (h : ∀ r ∈ rs, r.isClose = false) :
-    keepWritten rs = rs := by
-  unfold keepWritten
-  apply List.filter_eq_self.mpr
-  intro r hr
-  have : ¬ Reply.close r.conn ∈ rs := by
-    intro hm
-    have := h _ hm
-    simp [Reply.isClose] at this
-  simp [this]
-
 /-- the requests whose handler closes the requester's connection -/
 def closesConn (a : Abs) : Req → Bool
   | .disconnect _ => true
@@ -53,6 +42,92 @@ theorem spec_noClose (a : Abs) (req : Req) (h : closesConn a req = false) :
     | some t =>
       simp only [spec]
       cases ho : (a.task t).owner <;> simp [Reply.isClose]
+
+theorem filterMap_congr' {α β : Type} {f g : α → Option β} :
+    ∀ (l : List α), (∀ o ∈ l, f o = g o) → l.filterMap f = l.filterMap g
+  | [], _ => rfl
+  | x :: xs, h => by
+    have hx := h x (List.mem_cons_self)
+    have ih := filterMap_congr' xs (fun o ho => h o (List.mem_cons_of_mem _ ho))
+    simp [List.filterMap_cons, hx, ih]
+
+/-- a handler that closes nobody: everything it queued is written -/
+theorem written_noClose {out : List Out} (h : ∀ r ∈ clientReplies out, r.isClose = false) :
+    writtenReplies out = clientReplies out := by
+  have nc : ∀ c, Out.close c ∉ out := by
+    intro c hc
+    have : Reply.close c ∈ clientReplies out := by
+      unfold clientReplies
+      exact List.mem_filterMap.mpr ⟨_, hc, rfl⟩
+    have := h _ this
+    simp [Reply.isClose] at this
+  unfold writtenReplies clientReplies
+  apply filterMap_congr'
+  intro o _
+  cases o <;> simp [writtenOne, Out.reply?, nc]
+
+theorem writtenOne_downCancel (out : List Out) (m : Mid) : writtenOne out (.downCancel m) = none := by
+  simp [writtenOne, Out.reply?]
+
+theorem filterMap_downs {out downs : List Out} (h : ∀ o ∈ downs, ∃ m, o = Out.downCancel m) :
+    downs.filterMap (writtenOne out) = [] := by
+  apply List.filterMap_eq_nil_iff.mpr
+  intro o ho; obtain ⟨m, rfl⟩ := h o ho; exact writtenOne_downCancel _ _
+
+/-- what `handle_disconnect` (alone, or after the directly written 'Unknown task.') leaves in
+the log is written as it stands -/
+theorem written_disc {pre downs : List Out} {c : Conn}
+    (hd : ∀ o ∈ downs, ∃ m, o = Out.downCancel m)
+    (hp : pre = [] ∨ pre = [Out.errorNow c 0]) :
+    writtenReplies (pre ++ Out.close c :: downs) = clientReplies pre ++ [.close c] := by
+  unfold writtenReplies
+  rw [List.filterMap_append, List.filterMap_cons]
+  rw [filterMap_downs hd]
+  rcases hp with rfl | rfl <;> simp [writtenOne, clientReplies, Out.reply?]
+
+/-- every reply the automaton prescribes is really written -/
+theorem written_step {s s' : Srv} {a : Abs} {e : Ev} (h : Inv s) (r : R s a)
+    (hw : wf s e = true) (hs : step s e = .ok s') :
+    writtenReplies s'.out = (spec a (absEv s e)).2 := by
+  have sim := (sim_step h r e hw hs).2
+  by_cases hc : closesConn a (absEv s e) = false
+  · rw [written_noClose (by rw [sim]; exact spec_noClose a _ hc), sim]
+  · have h0 : Inv { s with out := [] } := h.clearOut
+    have r0 : R { s with out := [] } a := r.congr rfl rfl rfl
+    rw [step_eq_handle] at hs
+    cases e with
+    | disconnect c =>
+      obtain ⟨ts, hcl⟩ := wf_client (by simpa [wf] using hw)
+      obtain ⟨s'', e2, p⟩ := handleDisconnect_post h0 (c := c) (ts := ts) hcl
+      simp only [handle] at hs; rw [e2] at hs; cases hs
+      obtain ⟨downs, d1, d2⟩ := p.outShape
+      rw [d1]
+      have := written_disc (pre := []) (c := c) d2 (Or.inl rfl)
+      simpa [absEv, spec, clientReplies] using this
+    | request c t =>
+      obtain ⟨ts, hcl⟩ := wf_client (by simpa [wf] using hw)
+      have no : (a.task t).openFor c = false := by
+        simpa [absEv, closesConn] using hc
+      have ht : t ∉ ts := fun x => by
+        have := (r0.mine_iff h0 t hcl).mpr x
+        rw [no] at this; cases this
+      simp only [handle] at hs
+      rw [handleRequest_notMine h0 hcl ht] at hs
+      obtain ⟨s'', e2, p⟩ := handleDisconnect_post (h0.emit (.errorNow c 0)) (c := c) (ts := ts) hcl
+      rw [e2] at hs; cases hs
+      obtain ⟨downs, d1, d2⟩ := p.outShape
+      rw [d1]
+      have := written_disc (pre := [Out.errorNow c 0]) (c := c) d2 (Or.inr rfl)
+      simp only [absEv, spec_request_notOpen no]
+      simpa [Srv.emit, clientReplies, Out.reply?] using this
+    | connect c => simp [absEv, closesConn] at hc
+    | hello c => simp [absEv, closesConn] at hc
+    | submit c t => simp [absEv, closesConn] at hc
+    | status c t => simp [absEv, closesConn] at hc
+    | cancel c t => simp [absEv, closesConn] at hc
+    | result m v => simp [absEv, closesConn] at hc
+    | error m v => simp [absEv, closesConn] at hc
+    | log m v => simp [absEv, closesConn] at hc
 
 /-- did the history end in a handler exception (the run loop's error path)? -/
 def histFails (es : List Ev) : Bool :=
